@@ -19,7 +19,16 @@ FIXED = [
     # an alias that only appears in a later pass (after constants have been propagated) and unseats an earlier canonical variable negatively
     ("model G8 Real a; Real b; Real y; Real c; Real d; Real s; equation der(s) = -s; b = a; b + y = c; c = d; d = 0; y = 2 * s; end G8;", "G8"),
 ]
-MUST_SIMPLIFY = {"G0", "G1", "G2", "G3", "G4", "G5", "G6", "G7", "G8"}
+FIXED += [
+    # two alias groups, one headed by an algebraic variable, one by an input / parameter, linked with the algebraic side first
+    ("model G9 input Real u; Real a; Real w; Real z; Real s; equation der(s) = -s + u; a = w; z = u; a = z; end G9;", "G9"),
+    ("model G10 parameter Real p; Real a; Real w; Real z; Real s; equation der(s) = -s + a; a = w; z = p; a = -z; end G10;", "G10"),
+]
+FIXED += [
+    # affine models with initial equations (reduce_affine_expression writes both lists over one set of state vectors)
+    ("model G11 parameter Real x0 = 4.0; Real x; Real y; initial equation x = x0; equation der(x) = -2 * x; y = 3 * x + 1; end G11;", "G11"),
+]
+MUST_SIMPLIFY = {"G0", "G1", "G2", "G3", "G4", "G5", "G6", "G7", "G8", "G9", "G10", "G11"}
 
 
 def count(m):
@@ -48,6 +57,15 @@ def judge(txt, name, opts):
         return "residual function cannot be built: %s: %s" % (type(e).__name__, str(e)[:100]), "fail"
     if f.has_free():
         return "residual function has free symbols %s" % f.get_free(), "fail"
+    try:
+        fi = m.initial_residual_function
+        if fi.has_free():
+            return "initial residual function has free symbols %s" % fi.get_free(), "fail"
+    except BaseException as e:  # noqa
+        return "initial residual function cannot be built: %s: %s" % (type(e).__name__, str(e)[-120:]), "fail"
+    n_in0, n_in1 = len(m0.inputs) + len(m0.parameters), len(m.inputs) + len(m.parameters) + (0 if not o.get("replace_parameter_values") and not o.get("replace_parameter_expressions") else len(m0.parameters) - len(m.parameters))
+    if n_in1 < n_in0 and not (o.get("replace_parameter_values") or o.get("replace_parameter_expressions")):
+        return "an input or parameter disappeared: %s -> %s" % (S.names_of(m0.inputs + m0.parameters), S.names_of(m.inputs + m.parameters)), "fail"
     if u1 - e1 != 0:
         return "unknowns - equations was 0 and is now %d (%d unknowns %s, %d equations)" % (u1 - e1, u1, S.names_of(m.states + m.alg_states), e1), "fail"
     return None, "ok"
@@ -61,7 +79,8 @@ def main():
     failures, n, nontrivial = [], 0, 0
     for txt, name in models:
         for opts in S.option_sets(tier) + [dict(expand_mx=True, detect_aliases=True, allow_derivative_aliases=False),
-                                           dict(expand_mx=True, detect_aliases=True, eliminate_constant_assignments=True, replace_constant_values=True, iterative_simplification=True)]:
+                                           dict(expand_mx=True, detect_aliases=True, eliminate_constant_assignments=True, replace_constant_values=True, iterative_simplification=True)] + \
+                ([dict(expand_mx=False, reduce_affine_expression=True), dict(expand_mx=True, reduce_affine_expression=True, replace_parameter_values=True)] if name in ("G0", "G2", "G11") else []):
             n += 1
             try:
                 bad, status = judge(txt, name, opts)
